@@ -86,6 +86,14 @@ def allformat_read_campaign(ctx, stride=1, nops=30, channels=(1, 2, 3), route_sk
         blk = [j for j in jobs if R.block_hint(j[0]) > 1]
         gran = [j for j in jobs if R.block_hint(j[0]) <= 1]
         jobs = blk + gran[rng.randrange(stride)::stride]
+    # staging-buffer boundaries: every kernel of a sample-granular codec stages through a fixed 8192-byte buffer (8192 / 4096 / 2048 / 1024 items per pass);
+    # one long mono file per codec (WAV / AU first) makes the sequential reference read and the large requests of the history cross it, so that a slip at a
+    # chunk boundary of ONE kernel (one codec x one caller type) shows as a `data` clause against the reads that do not cross it
+    seen = set()
+    for f in sorted(fs, key=lambda f: (f.major not in (0x01, 0x03), f.major)):
+        if R.block_hint(f) <= 1 and getattr(f, "granular", False) and f.codec not in seen:
+            seen.add(f.codec)
+            jobs.append((f, 1, 9000))
     ws = [("%s-c%d-n%d-%d" % (f.name, ch, n, i), R.write_phase(rng, f, ch, n)) for i, (f, ch, n) in enumerate(jobs)]
     out = ctx.batch(ws)
     findings, stats, tests = [], collections.Counter(), []
